@@ -502,6 +502,12 @@ func Generate(r *rand.Rand, g GenOpts) []*GFile {
 			}
 		}
 	}
+	// directed family: task names / namespace keys containing ':' that collide (or nearly collide)
+	// with the qualified name of an included task; a collision must be reported, never overwrite
+	if g.Mode == "c08" && g.Index%5 == 2 && len(allIncs) > 0 {
+		colonFamily(r, files, allIncs, addInclude, g.Index/5)
+		return files
+	}
 	// injected error causes (at most one per tree, in about a third of the trees)
 	if g.Mode == "c08" {
 		switch r.Intn(22) {
@@ -646,6 +652,147 @@ func EnumSmall(k int, r *rand.Rand) []*GFile {
 	}
 	if second > 0 && len(incs) > 1 {
 		applyOpt(r, incs[1], incOpts[second-1], tasksOf)
+	}
+	return files
+}
+
+// colonFamily: variant 0: the including file itself has a task named `<ns>:<task>`; 1: the near miss `<ns>:<task>x`;
+// 2: a second include whose namespace key is `<ns1>:<ns2>` of a nested chain and whose file has the same task;
+// 3: the near miss `<ns1>:<ns2>x`; 4: like 0 but the colliding name sits in a sibling that is flattened into the parent.
+func colonFamily(r *rand.Rand, files []*GFile, allIncs []struct{ p, c, k int },
+	addInclude func(p, c int, ns string) *GInclude, variant int) {
+	plain := func(in *GInclude) {
+		in.Flatten, in.Excludes, in.Optional = false, nil, false
+	}
+	e := allIncs[r.Intn(len(allIncs))]
+	if variant%5 == 2 || variant%5 == 3 {
+		// prefer an include whose file has includes of its own (a chain)
+		for _, cand := range allIncs {
+			for _, e2 := range allIncs {
+				if e2.p == cand.c {
+					e = cand
+				}
+			}
+		}
+	}
+	in := &files[e.p].Includes[e.k]
+	plain(in)
+	child := files[e.c]
+	tn := child.Tasks[r.Intn(len(child.Tasks))].Name
+	switch variant % 5 {
+	case 0, 1, 4:
+		name := in.NS + ":" + tn
+		if variant%5 == 1 {
+			name += "x"
+		}
+		host := files[e.p]
+		t := GTask{Name: name, Cmds: []GCmd{{Shell: marker(host.Path, name)}}}
+		if variant%5 == 4 && len(files) > 2 {
+			// put the colliding task into another file that the parent flattens in
+			for o := 1; o < len(files); o++ {
+				if o != e.c && o != e.p && o > e.p {
+					files[o].Tasks = append(files[o].Tasks, GTask{Name: name, Cmds: []GCmd{{Shell: marker(files[o].Path, name)}}})
+					fi := addInclude(e.p, o, "flat")
+					fi.Advanced, fi.Flatten = true, true
+					return
+				}
+			}
+		}
+		host.Tasks = append(host.Tasks, t)
+	case 2, 3:
+		// a chain p -> c -> d, and p includes d's file once more under the key "<ns(p->c)>:<ns(c->d)>"
+		for _, e2 := range allIncs {
+			if e2.p == e.c {
+				in2 := &files[e2.p].Includes[e2.k]
+				plain(in2)
+				ns := in.NS + ":" + in2.NS
+				if variant%5 == 3 {
+					ns += "x"
+				}
+				addInclude(e.p, e2.c, ns)
+				return
+			}
+		}
+		// no chain in this tree: fall back to the task-name form
+		name := in.NS + ":" + tn
+		if variant%5 == 3 {
+			name += "x"
+		}
+		files[e.p].Tasks = append(files[e.p].Tasks, GTask{Name: name, Cmds: []GCmd{{Shell: marker(files[e.p].Path, name)}}})
+	}
+}
+
+// EnvToolName is set in the driver's process environment so that templates can refer to it.
+const EnvToolName = "VH_ENVTOOL"
+const EnvToolValue = "envx"
+
+// GenerateTpl: a file reached through two include statements that pass different vars (double include or
+// diamond) has itself an include whose taskfile: / dir: is a template.  The template may refer to a variable
+// set by the include statements (NOT visible when the nested path is expanded: the default is used), to the
+// process environment (visible), to a global of the file itself (visible) or to a global of the root (not visible).
+func GenerateTpl(r *rand.Rand, idx int) []*GFile {
+	mkTask := func(path, name string, extra ...GCmd) GTask {
+		return GTask{Name: name, Cmds: append([]GCmd{{Shell: marker(path, name)}}, extra...)}
+	}
+	root := &GFile{Path: "Taskfile.yml", Version: "3"}
+	root.Tasks = []GTask{mkTask(root.Path, "default"), mkTask(root.Path, "root")}
+	root.Vars = OM{{"RTOOL", "rootg"}, {"SHARED", "s-root"}}
+	x := &GFile{Path: "x/Taskfile.yml", Version: "3"}
+	x.Tasks = []GTask{mkTask(x.Path, "build", GCmd{Task: "tc:cc"}), mkTask(x.Path, "default")}
+	x.Vars = OM{{"SHARED", "s-x"}}
+	files := []*GFile{root, x}
+
+	kind := idx % 6
+	tpl := map[int]string{
+		0: `{{.TOOLCHAIN | default "generic"}}`, // include-statement var
+		1: `{{.` + EnvToolName + ` | default "generic"}}`,
+		2: `{{.GTOOL | default "generic"}}`, // x's own global
+		3: `{{.RTOOL | default "generic"}}`, // only the root has it
+		4: `{{.TOOLCHAIN | default "generic"}}`,
+		5: `{{.` + EnvToolName + `}}`,
+	}[kind]
+	if kind == 2 {
+		x.Vars = append(x.Vars, KV{"GTOOL", "own"})
+	}
+	tc := GInclude{NS: "tc", Advanced: true, Taskfile: "./toolchain_" + tpl + ".yml"}
+	switch r.Intn(3) {
+	case 0:
+		tc.Dir = "./wd_" + tpl
+	case 1:
+		tc.Dir = "./wd_{{." + EnvToolName + ` | default "noenv"}}`
+	}
+	if kind == 4 { // the variable also has a (static) global in x: that one is visible
+		x.Vars = append(x.Vars, KV{"TOOLCHAIN", "own"})
+	}
+	x.Includes = []GInclude{tc}
+	for _, v := range []string{"generic", "gcc", "cl", EnvToolValue, "own", "rootg"} {
+		p := "x/toolchain_" + v + ".yml"
+		f := &GFile{Path: p, Version: "3", Vars: OM{{"TC", "tc-" + v}}}
+		f.Tasks = []GTask{mkTask(p, "cc"), mkTask(p, "only_"+v)}
+		files = append(files, f)
+	}
+	incX := func(ns, tool, from string) GInclude {
+		in := GInclude{NS: ns, Advanced: true, Taskfile: from, Vars: OM{{"TOOLCHAIN", tool}}}
+		if r.Intn(3) == 0 { // include vars that shadow the other sources: still not visible in the nested path
+			in.Vars = append(in.Vars, KV{"GTOOL", tool}, KV{"RTOOL", tool})
+		}
+		return in
+	}
+	switch r.Intn(3) {
+	case 0: // the same file twice from the root
+		root.Includes = []GInclude{incX("x1", "gcc", "./x"), incX("x2", "cl", "./x")}
+	case 1: // diamond
+		b := &GFile{Path: "b/Taskfile.yml", Version: "3", Tasks: []GTask{mkTask("b/Taskfile.yml", "bt")}}
+		c := &GFile{Path: "c/Taskfile.yml", Version: "3", Tasks: []GTask{mkTask("c/Taskfile.yml", "ct")}}
+		b.Includes = []GInclude{incX("x", "gcc", "../x")}
+		c.Includes = []GInclude{incX("x", "cl", "../x")}
+		root.Includes = []GInclude{{NS: "b", Taskfile: "./b"}, {NS: "c", Taskfile: "./c"}}
+		files = append(files, b, c)
+	case 2: // the same file twice from an intermediate file, and once from the root
+		b := &GFile{Path: "b/Taskfile.yml", Version: "3", Tasks: []GTask{mkTask("b/Taskfile.yml", "bt")}}
+		b.Includes = []GInclude{incX("x1", "gcc", "../x"), incX("x2", "cl", "../x")}
+		root.Includes = []GInclude{{NS: "b", Taskfile: "./b"}, incX("x3", "generic", "./x")}
+		files = append(files, b)
 	}
 	return files
 }
